@@ -315,6 +315,7 @@ def check(run):
                 run.obligation('correspondence model=code (jugdir expansion)', False, 'template=%r jugfile=%r model=%r code=%r' % (tmpl, jf, a, seen))
     store_family(run, drv, rng, date, quick)
     fresh_process_family(run, rows, defaults, rng, 6 if quick else 60)
+    persistent_dict_family(run)
     run.counts['subcommands_seen'] = len(subs_seen)
     run.counts['shapes'] = shapes
     if drv is not None:
@@ -398,6 +399,45 @@ def fresh_process_family(run, rows, defaults, rng, n):
                     break
         finally:
             core.rm_rf(home)
+
+
+def persistent_dict_family(run):
+    """a project kept in the in-memory backend with a backing file (`--jugdir dict_store:<file>`): what `jug execute` computed is there for the next command - `jug check` agrees,
+    a second execute runs nothing, invalidate is seen by the next process"""
+    from jugverif.loadercheck import jug_cli
+    d = core.scratch_dir('jugverif-dictproj-')
+    try:
+        with open(os.path.join(d, 'jugfile.py'), 'w') as f:
+            f.write("from jug import TaskGenerator\nimport os\nHERE = os.path.dirname(os.path.abspath(__file__))\n@TaskGenerator\ndef f(x):\n    open(os.path.join(HERE, 'calls.log'), 'a').write('f\\n')\n    return x + 1\n"
+                    "@TaskGenerator\ndef g(x):\n    open(os.path.join(HERE, 'calls.log'), 'a').write('g\\n')\n    return x * 2\na = f(1)\nb = f(a)\nc = g(b)\n")
+        jd = ['--jugdir', 'dict_store:project.store', '--will-cite']
+        rp = {'kind': 'persistent-dict-project'}
+        run.case(('persistent-dict-project',), nontrivial=True)
+        run.count('persistent_dict_projects')
+
+        def ncalls():
+            try:
+                return len(open(os.path.join(d, 'calls.log')).read().split())
+            except IOError:
+                return 0
+        ex = jug_cli(['execute'] + jd + ['--nr-wait-cycles', '1', '--wait-cycle-time', '0', 'jugfile.py'], d)
+        n1 = ncalls()
+        chk = jug_cli(['check'] + jd + ['jugfile.py'], d)
+        ex2 = jug_cli(['execute'] + jd + ['--nr-wait-cycles', '1', '--wait-cycle-time', '0', 'jugfile.py'], d)
+        n2 = ncalls()
+        if ex.returncode != 0 or n1 != 3:
+            run.fail('dict-project-execute', '`jug execute --jugdir dict_store:project.store` exits %s after %d of 3 task invocations: %s' % (ex.returncode, n1, ex.stdout[-300:]), rp)
+        elif chk.returncode != 0 or n2 != n1:
+            run.fail('store-differs:dict-file', 'project in `--jugdir dict_store:project.store`: after a complete `jug execute`, `jug check` (a new process) exits %s and a second `jug execute` invokes %d task '
+                     'functions again: the results of the first run were not kept in the backing file (%s)' % (chk.returncode, n2 - n1, 'it exists' if os.path.exists(os.path.join(d, 'project.store')) else 'it was never written'), rp)
+        else:
+            inv = jug_cli(['invalidate'] + jd + ['--target', 'g', 'jugfile.py'], d)
+            chk2 = jug_cli(['check'] + jd + ['jugfile.py'], d)
+            if chk2.returncode == 0:
+                run.fail('store-differs:dict-file-invalidate', 'project in `--jugdir dict_store:project.store`: after `jug invalidate --target g` (exit %s) a new process still finds every result (`jug check` exits 0): '
+                         'the invalidation did not reach the backing file' % inv.returncode, rp)
+    finally:
+        core.rm_rf(d)
 
 
 PROJECT = """import sys
